@@ -27,6 +27,11 @@ CLAIMED = {
         design_ref='DESIGN.md §5 C10',
         note='claimed in part: the distance-exactness step of idl_theory only; conflict detection = negative cycle, validity of explanations (predecessor matrix), re-propagation of registered constraints, matrix growth and rdl_theory are not yet under contract; 3 (quick) / 4 time points, finite weights in [-8, 8] plus the inf() sentinel',
         technique='contract-based deductive verification of an inductive invariant step (CBMC function contracts via goto-instrument --dfcc) on C extracted from the real C++'),
+    'C14': dict(
+        text='ov_theory::new_var(items), allows, value and new_eq are extracted to C on every run and proved: a variable created with a domain gets one literal per value (TRUE_lit for a singleton) and takes exactly one value in every model of the clauses added; allows returns the value literal or FALSE_lit; value() is exactly the set of values not excluded by the current assignment; the equality literal is true exactly when both variables take the same value, is FALSE_lit for disjoint domains, TRUE_lit for the same variable, requesting it is conservative, and the recursive call with swapped arguments is verified against the same contract. sat_core::new_var/new_clause/new_exct_one are replaced by their C13 contracts.',
+        design_ref='DESIGN.md §5 C14',
+        note='bounded: domains of <=2 (quick) / 3 distinct values, <=2 object variables controlled by disjoint propositional variables, root assignment compatible with exactly-one; the expression cache of ov_theory is empty (cache-hit reuse not covered); new_var(lits, vals), var_flaw and solver::new_enum not yet under contract; unordered containers with pointer keys iterate in insertion order in the model; no native replay driver',
+        technique='contract-based deductive verification (CBMC function contracts via goto-instrument --dfcc, callee contracts by --replace-call-with-contract, ghost clause log) on C extracted from the real C++'),
 }
 
 _DEFAULT_NA = 'not yet brought under contract in this state of the machinery (see DESIGN.md §5 for the planned contracts)'
